@@ -90,6 +90,10 @@ def _record(job):
             os.mkdir(os.path.join(d0, "real"))        # the database path is a symbolic link to a file elsewhere
             open(os.path.join(d0, "real", "data.csv"), "w").close()
             os.symlink(os.path.join(d0, "real", "data.csv"), path)
+        if opts.get("hardlink"):
+            os.mkdir(os.path.join(d0, "real"))        # the database file has a second name (a hard-link "snapshot" elsewhere)
+            open(path, "w").close()
+            os.link(path, os.path.join(d0, "real", "snap.csv"))
     want_io = bool(opts.get("io")) and kind == "csv"
     nostore = bool(opts.get("nostore"))
     mode = opts.get("mode")
@@ -249,6 +253,9 @@ def _record_fault(job):
             rec.fault_at = None
             fault = {"oserr": oserr, "injected": 1 if injected else 0,
                      "at": next((e["call"] + ":" + e["f"] for e in rec.events if e.get("fault")), "")}
+            # files left behind in the temp / database directory once the call has returned or raised (not counted when the
+            # failed call was the removal itself: the operating system refused it)
+            fault["tmp"] = 0 if fault["at"].startswith("unlink") else len(_leftovers(tmpdir, d0))
             # the live object's own storage
             try:
                 scan = [d.abs_point(p) for p in list(iter(d.db))]
